@@ -242,7 +242,7 @@ func runRecovScenario(sc recovScenario) *recovLine {
 		}
 	}
 	_ = selReq
-	cut.Net.Refuse.Store(sc.refused > 0)
+	cut.Net.RefuseN.Store(int32(sc.refused)) // exactly this many dials are refused, decided inside the dialer (no polling race)
 	tFault := time.Now()
 	switch f.Mode {
 	case "close":
@@ -334,7 +334,6 @@ func runRecovScenario(sc recovScenario) *recovLine {
 			time.Sleep(300 * time.Microsecond)
 		}
 	}
-	cut.Net.Refuse.Store(false)
 	smu.Lock()
 	down = false
 	smu.Unlock()
